@@ -2560,7 +2560,8 @@ def record_retry(rec: Rec, d: str, w: str):
 
 # scenarios whose retries (one per crash prefix, the completed run excluded: its retry is a NEW operation) are
 # recorded into Gen/ and discharged by `retryOK … = true`: the loose-object lock mechanism
-RETRY_SCENARIOS = ["add_object_loose", "commit_loose", "commit_initial", "commit_mixed", "tag_create"]   # (stage: the index bytes of a re-run differ by stat data)
+RETRY_SCENARIOS = ["add_object_loose", "commit_loose", "commit_initial", "commit_mixed", "tag_create",
+                   "shallow_initial_subprocess", "shallow_initial_local", "shallow_deepen_subprocess", "shallow_unshallow_local"]   # (stage: the index bytes of a re-run differ by stat data)
 
 
 def add_object_lock_handling(repo: Path) -> bool:
@@ -2619,6 +2620,7 @@ def classify_recovery(rec: Rec, state_files: dict, wname: str, outcome: str, cla
             and idx(state_files) - idx(rec.start_files) and state_files.get("shallow") == rec.start_files.get("shallow"):
         # an INITIAL depth fetch crashed after its pack was installed and before the shallow file was written; the
         # retry finds the tip in the store, wants nothing, learns no graft point — and the caller sets the ref
+        # (fixed by /repo PENDING-1: graft points are written before the pack; the class names a regression)
         return "retry-depth-fetch-after-pack-before-shallow"
     return f"recovery:{wname}:{clause}"
 
